@@ -132,7 +132,7 @@ def r1_term_rendering(R) -> None:
                 cls = 'namelike' if ts <= NAMELIKE else f'types:{sorted(ts)}'
                 if ts != NAMELIKE:
                     R.violation(f.q, f'str-namelike-types:{sorted(ts)}', f'`{text(a)}`: the bare-name rendering applies to {sorted(ts)}, expected {sorted(NAMELIKE)}',
-                                where=f.where(r))
+                                where=f.where(r), mismatch=True)
         if cls is None:
             kinds = [(_isinstance_of(a, 'self.index_'), truth) for (a, truth, _tn) in atoms]
             if ('int', True) in kinds:
@@ -161,7 +161,7 @@ def r1_term_rendering(R) -> None:
                 where=f.where(r))
     for cls in expected:
         if cls not in seen:
-            R.violation(f.q, f'str-row-missing:{cls}', f'Term.__str__ has no rendering row for {cls}', where=f.fi.where)
+            R.violation(f.q, f'str-row-missing:{cls}', f'Term.__str__ has no rendering row for {cls}', where=f.fi.where, mismatch=True)
     # ---- Term.code
     g = Fn(R, f'{P}.Term.code')
     rows = _rows(g, strict=False)
@@ -251,7 +251,7 @@ def r1_term_rendering(R) -> None:
                     f'default code rendering is `{show(got)}`, expected `self._<str(self)>`', where=g.where(r))
     for row in ('function', 'verbatim', 'str-index', 'default'):
         if row not in got_rows:
-            R.violation(g.q, f'code-row-missing:{row}', f'Term.code has no `{row}` row', where=g.fi.where)
+            R.violation(g.q, f'code-row-missing:{row}', f'Term.code has no `{row}` row', where=g.fi.where, mismatch=True)
 
 
 def _private_name_rule(R, g, r, v, underscore_excluded: bool) -> None:
